@@ -37,7 +37,7 @@ def _owner(ctx, q, depth=0):
     a reader knows"""
     from verifkit.known_names import KNOWN
     fn = ctx.model.funcs.get(q)
-    if fn is None or depth > 3 or fn.name in KNOWN or not fn.name.startswith("_") or (fn.name.startswith("__") and fn.name.endswith("__")):
+    if fn is None or depth > 3 or fn.name in KNOWN or (fn.name.startswith("__") and fn.name.endswith("__")):
         return q
     callers = sorted(c for c in ctx.model.funcs if c != q and q in ctx.graph.callees(c))
     if len(callers) != 1:
